@@ -57,3 +57,46 @@ def classify(ops, impl):
     if 'getfail=' in ops[0]:
         ks.append('getter_failure')
     return ks
+
+
+def extra_run(tier, seed, tag):
+    """Linux clause: the REAL os/linux/lltd_port.c getters on random / boundary records vs the Lean model,
+    plus the property's relation checked on the implementation's output"""
+    import random
+    import vlib
+    out = {'violations': [], 'notes': [], 'coverage': {}}
+    bdir = os.path.join(vlib.BUILD, tag, 'linuxport')
+    os.makedirs(bdir, exist_ok=True)
+    src = os.path.join(vlib.REPO, 'os', 'linux', 'lltd_port.c')
+    r = vlib.run(['gcc', '-std=gnu11', '-O1', '-w', '-D_GNU_SOURCE', '-I' + os.path.join(vlib.REPO, 'lltdResponder'), '-I' + os.path.join(vlib.REPO, 'os', 'linux'),
+                  src, os.path.join(vlib.VERIF, 'harness', 'linuxport_main.c'), '-o', os.path.join(bdir, 'linuxport')])
+    if r.returncode != 0:
+        out['notes'].append('Linux port harness does not build: ' + r.stdout[-500:])
+        return out
+    rng = random.Random(seed * 31 + 5)
+    U = [0, 1, 99, 100, 101, 199, 200, 0x7fffffff, 0x80000000, 0xffffffff, 1000000000, 10000000]
+    recs = []
+    for k in range(400 if tier == 'quick' else 40000):
+        mac = rng.choice(F.NEAR[:7]) if rng.random() < 0.5 else ''.join('%02x' % rng.choice(B) for _ in range(6))
+        recs.append('%s %d %d %d %d %d' % (mac, rng.choice([576, 1500, 9216, 0, 0xffffffff, rng.randrange(2**32)]), rng.choice(U + [rng.randrange(2**32)]),
+                                           rng.choice(U + [rng.randrange(2**32)]), rng.choice([0, 0x10, 0x20, 0x30, 0xffffffef, 0xffffffff, rng.randrange(2**32)]),
+                                           rng.choice([0, 8, 1, 0x41, 0x49, 0xfffffff7, 0xffffffff, rng.randrange(2**32)])))
+    rp = os.path.join(bdir, 'recs.txt')
+    open(rp, 'w').write('\n'.join(recs) + '\n')
+    impl = subprocess.run([os.path.join(bdir, 'linuxport')], stdin=open(rp), stdout=subprocess.PIPE, text=True).stdout.strip().split('\n')
+    model = vlib.run([vlib.DRIVER, 'linuxrec', rp]).stdout.strip().split('\n')
+    nd = 0
+    for i, rec in enumerate(recs):
+        a = impl[i] if i < len(impl) else '<missing>'
+        b = model[i] if i < len(model) else '<missing>'
+        mac, mtu, ift, spd, med, fl = rec.split()
+        spd, med, fl = int(spd), int(med), int(fl)
+        want = 'rec mac=%s mtu=%s iftype=%s speed=%d flags=%d rc=0000' % (mac, mtu, ift, spd // 100, (0x2000 if med & 0x10 else 0) | (0x800 if fl & 8 else 0))
+        if a != want:
+            out['violations'].append(('linuxrec%d' % i, ['linuxrec ' + rec], (0, 'C04 Linux clause: record `%s` is supplied as `%s`, expected `%s`' % (rec, a, want))))
+        if a != b:
+            nd += 1
+            if nd <= 3:
+                out['notes'].append('Linux port: model and implementation differ on record `%s`: %s vs %s' % (rec, a, b))
+    out['coverage'] = {'linux_port_records': len(recs), 'linux_port_differences': nd, 'linux_port_sample': [recs[0], impl[0] if impl else '']}
+    return out
